@@ -1446,7 +1446,10 @@ class Engine:
             for k, v in base[2]:
                 if k == attr:
                     return v
-            return self._load_attr(base[1], attr, node, s, fi, depth, ch)
+            ty0 = self.typer.type_of(base[1])
+            if ty0 and ty0[0] == "cls" and self.prog.lookup_field(ty0[1], attr) is not None:
+                return self._load_attr(base[1], attr, node, s, fi, depth, ch)
+            # methods / properties are bound to the modified copy itself (handled below)
         cq = None
         is_clsobj = False
         if tag == "cls":
